@@ -52,6 +52,7 @@ type c06In struct {
 	Ended   []string       `json:"ended,omitempty"` // ids of SendIQ requests whose context has ended (Err() != nil) while their entry is still registered (the clean-up goroutine has not run: Done() never fires)
 	Pkt     c06Pkt         `json:"pkt"`
 	Client  *c06Client     `json:"client,omitempty"`
+	Share   bool           `json:"share,omitempty"` // the caller passes the arguments of every StanzaType / IQNamespaces call through ONE slice it re-uses (f(buf...)) and overwrites when the table is built
 }
 
 type c06 struct{}
@@ -66,7 +67,7 @@ func (c06) Workers() int  { return 8 }
 // down (a fatal error no recover can catch) is still named by the check.
 func (c06) Journal() bool { return true }
 func (c06) Rule() string {
-	return "random route tables (0-6 routes x 0-3 matchers among Packet/StanzaType/IQNamespaces, 1-3 arguments each, catch-all routes at random positions, duplicated and overlapping routes, arguments in mixed case; mostly ASCII, the domain of the model's lower-casing, plus names that strings.ToLower folds onto ASCII ones or onto each other - U+0130 (dotted capital I) in Packet('\u0130Q'), U+017F (long s) in 'me\u017f\u017fage', U+212A (Kelvin sign), '\u00c9' against the type '\u00e9' - for which the model is handed the argument as strings.ToLower returns it) x one random packet (message/presence with assorted types incl. empty, *IQ of type get/set/result/error/other with payload nil / built by the library builders / zero-valued / custom namespace / parsed from XML (registered payload types, and types unknown to the registry such as ping / vCard / a mixed-case application namespace, which land in the generic Any node), with or without a generic Any node, and 10 kinds of non-stanza packets incl. SMAnswer - routed like the others for a Sender that is not a *Client; in one case in twelve the Sender is a real *Client on an established session (stream management on or off, 0-4 stanzas sent and held, connection working or cut so that every write of the retransmission fails) and the packet an <a h/> with h below / equal to / beyond the number held, or any other packet: whatever the router does with the acknowledgement first (C10), the packet is still dispatched to the first accepting route exactly once), 0-2 pending IQ-result ids (clashing with the ids of requests as well as of responses), and in one case in five 1-2 ids of requests that have ENDED (context cancelled, entry still in IQResultRoutes because the clean-up goroutine is held back: a context whose Err() is non-nil and whose Done() never fires) - a response carrying such an id is a received packet like any other: first matching route exactly once, delivered to nobody, stale entry gone; a live pending request still takes its response and no handler runs; namespace arguments aim at the payload namespace verbatim or in another letter case; corpus: an unmatched get whose generic payload is nested 400000 levels (generated from the depth); the recording Sender serialises what it is given, as Client.Send / Component.Send do; distinct = distinct (matcher kinds and per-route verdict, packet class, pending hit); non-trivial = at least 2 routes and either a route other than the first is selected or nothing matches an IQ get/set"
+	return "random route tables (0-6 routes x 0-3 matchers among Packet/StanzaType/IQNamespaces, 1-3 arguments each, catch-all routes at random positions, duplicated and overlapping routes, arguments in mixed case, in one case in four handed to the builders through ONE slice the caller re-uses for every StanzaType / IQNamespaces call and overwrites once the table is built (a builder must neither modify nor retain it); mostly ASCII, the domain of the model's lower-casing, plus names that strings.ToLower folds onto ASCII ones or onto each other - U+0130 (dotted capital I) in Packet('\u0130Q'), U+017F (long s) in 'me\u017f\u017fage', U+212A (Kelvin sign), '\u00c9' against the type '\u00e9' - for which the model is handed the argument as strings.ToLower returns it) x one random packet (message/presence with assorted types incl. empty, *IQ of type get/set/result/error/other with payload nil / built by the library builders / zero-valued / custom namespace / parsed from XML (registered payload types, and types unknown to the registry such as ping / vCard / a mixed-case application namespace, which land in the generic Any node), with or without a generic Any node, and 10 kinds of non-stanza packets incl. SMAnswer - routed like the others for a Sender that is not a *Client; in one case in twelve the Sender is a real *Client on an established session (stream management on or off, 0-4 stanzas sent and held, connection working or cut so that every write of the retransmission fails) and the packet an <a h/> with h below / equal to / beyond the number held, or any other packet: whatever the router does with the acknowledgement first (C10), the packet is still dispatched to the first accepting route exactly once), 0-2 pending IQ-result ids (clashing with the ids of requests as well as of responses), and in one case in five 1-2 ids of requests that have ENDED (context cancelled, entry still in IQResultRoutes because the clean-up goroutine is held back: a context whose Err() is non-nil and whose Done() never fires) - a response carrying such an id is a received packet like any other: first matching route exactly once, delivered to nobody, stale entry gone; a live pending request still takes its response and no handler runs; namespace arguments aim at the payload namespace verbatim or in another letter case; corpus: an unmatched get whose generic payload is nested 400000 levels (generated from the depth); the recording Sender serialises what it is given, as Client.Send / Component.Send do; distinct = distinct (matcher kinds and per-route verdict, packet class, pending hit); non-trivial = at least 2 routes and either a route other than the first is selected or nothing matches an IQ get/set"
 }
 
 // ---- packets -------------------------------------------------------------------------
@@ -294,10 +295,17 @@ func (c06) Run(inp interface{}) Sx {
 	router := xmpp.NewRouter()
 	var mu sync.Mutex
 	var log []Sx
+	scratch := make([]string, 0, 8) // in.Share: the caller's one re-used argument slice
+	rewritten := 0                  // builder calls after which the caller's slice no longer held what was passed
 	for i, ms := range in.Routes {
 		rt := router.NewRoute()
 		for _, m := range ms {
-			args := append([]string{}, m.A...) // the builders lower-case their argument slice in place
+			args := append([]string{}, m.A...) // a variadic call f(args...) hands the builder this very slice
+			if in.Share && m.K != "packet" && len(m.A) <= cap(scratch) {
+				scratch = scratch[:len(m.A)]
+				copy(scratch, m.A)
+				args = scratch
+			}
 			switch m.K {
 			case "packet":
 				rt.Packet(args[0])
@@ -307,6 +315,14 @@ func (c06) Run(inp interface{}) Sx {
 				rt.IQNamespaces(args...)
 			default:
 				panic("c06: unknown matcher " + m.K)
+			}
+			if m.K != "packet" {
+				for k := range args {
+					if args[k] != m.A[k] {
+						rewritten++
+						break
+					}
+				}
 			}
 		}
 		idx := i
@@ -318,6 +334,13 @@ func (c06) Run(inp interface{}) Sx {
 			log = append(log, L(Zi(idx), B(same)))
 			mu.Unlock()
 		})
+	}
+	if in.Share {
+		// the table is built: the caller's buffer goes on to other uses
+		scratch = scratch[:cap(scratch)]
+		for k := range scratch {
+			scratch[k] = "clobbered"
+		}
 	}
 	// pending SendIQ requests: registered through the public NewIQResultRoute, each with a reader
 	ctx, cancel := context.WithCancel(context.Background())
@@ -428,7 +451,7 @@ func (c06) Run(inp interface{}) Sx {
 	defer sender.mu.Unlock()
 	mu.Lock()
 	defer mu.Unlock()
-	return L(LS(log), LS(sender.sent), LS(sender.raws), Zi(sender.sendIQ), LS(delivered), LS(left), LS(endedLeft))
+	return L(LS(log), LS(sender.sent), LS(sender.raws), Zi(sender.sendIQ), LS(delivered), LS(left), LS(endedLeft), Zi(rewritten))
 }
 
 // c06ModelArg: the model lower-cases ASCII only; an argument outside ASCII is handed to it as
@@ -575,10 +598,22 @@ func c06Expect(in c06In, f c06Facts) c06Want {
 }
 
 func (c06) Oracle(inp interface{}, obs Sx) (string, string) {
+	if msg, sig := c06Judge(inp, obs); msg != "" {
+		return msg, sig
+	}
+	// a builder neither modifies nor retains the slice its variadic arguments arrive in (the routing consequences of
+	// a retained slice are judged above; this is the caller's own data)
+	if n := obs.L[7].Z; n != 0 {
+		return fmt.Sprintf("%d builder calls (StanzaType / IQNamespaces) rewrote the caller's argument slice", n), "caller-slice-rewritten"
+	}
+	return "", ""
+}
+
+func c06Judge(inp interface{}, obs Sx) (string, string) {
 	in := inp.(c06In)
 	f := c06FactsOf(c06Build(in.Pkt))
 	w := c06Expect(in, f)
-	if obs.K != "l" || len(obs.L) != 7 {
+	if obs.K != "l" || len(obs.L) != 8 {
 		return "malformed observation", "shape"
 	}
 	log, sent, raws, sendIQ, deliv, left := obs.L[0].L, obs.L[1].L, obs.L[2].L, obs.L[3].Z, obs.L[4].L, obs.L[5].L
@@ -712,6 +747,10 @@ func (c06) Key(inp interface{}) (string, bool) {
 		}
 	}
 	fmt.Fprintf(&b, "|%s/%s%s|%v%v", cls, typ, pl, w.pendingHit, w.endedHit)
+	if in.Share {
+		b.WriteString("|shared-slice")
+		hist("builder-args:one re-used slice")
+	}
 	if in.Client != nil {
 		fmt.Fprintf(&b, "|client%v%v%v", in.Client.SM, in.Client.Cut, in.Pkt.Kind == "sma" && int(in.Pkt.H) < in.Client.Held)
 	}
@@ -924,6 +963,13 @@ func (c06) Gen(r *rand.Rand, tier string) []interface{} {
 		// an SMAnswer is routed like any other non-stanza packet
 		c06In{Routes: [][]c06Matcher{{pm("packet", "iq")}, {pm("packet", "")}, {}}, Pkt: c06Pkt{Kind: "other", Other: 9}},
 		c06In{Routes: [][]c06Matcher{{pm("type", "get")}}, Pkt: c06Pkt{Kind: "other", Other: 9}},
+		// type lists handed to StanzaType through one slice the caller re-uses (f(buf...)) and then overwrites: each route
+		// keeps the types it was given (hunt2-C06/f1)
+		c06In{Share: true, Routes: [][]c06Matcher{{pm("packet", "iq"), pm("type", "get")}, {pm("packet", "iq"), pm("type", "set")}}, Pkt: get},
+		c06In{Share: true, Routes: [][]c06Matcher{{pm("packet", "iq"), pm("type", "get")}, {pm("packet", "iq"), pm("type", "set")}}, Pkt: c06Pkt{Kind: "iq", Type: "set", Id: "2", From: "a@b/c", To: "srv.example", Payload: "roster"}},
+		c06In{Share: true, Routes: [][]c06Matcher{{pm("type", "chat", "groupchat")}, {pm("type", "headline", "error")}, {}}, Pkt: c06Pkt{Kind: "message", Type: "chat"}},
+		c06In{Share: true, Routes: [][]c06Matcher{{pm("type", "Chat")}, {pm("ns", "jabber:iq:version"), pm("type", "GET", "set")}}, Pkt: c06Pkt{Kind: "iq", Type: "get", Id: "3", Payload: "version"}},
+		c06In{Routes: [][]c06Matcher{{pm("type", "Chat", "NORMAL")}}, Pkt: c06Pkt{Kind: "message"}}, // the caller's own slice {"Chat","NORMAL"} stays as it is
 		// the Sender is a real *Client holding unacknowledged stanzas: an <a/> is applied to its session first and then dispatched
 		// like every received packet, also when the retransmission it triggers cannot be written (seeded C06-mut8)
 		c06In{Routes: [][]c06Matcher{{pm("packet", "iq")}, {pm("packet", "presence")}, {}}, Client: &c06Client{SM: true, Held: 3, Cut: true}, Pkt: c06Pkt{Kind: "sma", H: 1}},
@@ -999,7 +1045,7 @@ func (c06) Gen(r *rand.Rand, tier string) []interface{} {
 				cl = nil // the automatic reply of a *Client goes to its transport, not to a recording Sender: not observed here
 			}
 		}
-		out = append(out, c06In{Routes: routes, Pending: pend, Ended: ended, Pkt: p, Client: cl})
+		out = append(out, c06In{Routes: routes, Pending: pend, Ended: ended, Pkt: p, Client: cl, Share: r.Intn(4) == 0})
 	}
 	return out
 }
